@@ -92,6 +92,13 @@ func (c *Chunk) Data(compressingType byte) ([]byte, error) {
 		w = &buff
 	}
 	err := nbt.NewEncoder(w).Encode(c, "")
+	if err != nil {
+		return buff.Bytes(), err
+	}
+	if wc, ok := w.(io.Closer); ok {
+		// flush the gzip/zlib stream, otherwise the tail of the chunk is lost
+		err = wc.Close()
+	}
 	return buff.Bytes(), err
 }
 
